@@ -30,13 +30,17 @@
    Composite cards in such positions (the while-language with for-loops and block-local variables); the resource
    side is explicit (hypotheses on stack depth and budget).
    STATIC CALLS (fragment F9, end of this file: several functions, Call with parameters to functions declared later - no
-   recursion -, Return) are covered IN PART: the reference half (C01_f9_reference_meaning), the compiler half (code:
-   C01_f9_compile_shape_code, labels: C01_f9_compile_labels) and C01_f9_well_scoped are proved for all programs of the fragment; the VM half (the run of
-   that code on Vm.run) has its vocabulary and the call / return steps proved (Cao.C01SimVm9, Cao.C01SimF9) but not the
-   simulation, so there is NO C01_compile_correct_f9 yet.
+   recursion -, Return, If*, locals and parameters) are covered END TO END: C01_compile_correct_f9, assembled from the
+   reference half (C01_f9_reference_meaning), the compiler half (code: C01_f9_compile_shape_code, labels:
+   C01_f9_compile_labels) and the VM half (Cao.C01SimF9b: the VM meaning of the calls by induction over the function list,
+   a function only calls later ones; Cao.C01SimF9c: the assembly), under explicit resource hypotheses (depth_ok9: the
+   frames of one chain of calls fit the value stack and the call stack; bytecode shorter than 2^31; budget) and the
+   hypothesis that the label keys of the program are pairwise distinct.  C01_f9_call_keeps_caller_stack: at the Return
+   instruction of a callee the caller's part of the value stack and every frame under the callee's are intact.
    STILL OPEN - carried by the differential check
-   C01Check (the real compiler + VM against eval_program) only: reals, ForEach, calls (end to end; recursion, dynamic
-   calls), tables, closures, natives. *)
+   C01Check (the real compiler + VM against eval_program) only: reals, ForEach, calls outside F9 (recursion, calls to
+   earlier functions, dynamic calls, calls in statement or argument position, loops inside functions), tables, closures,
+   natives. *)
 From Coq Require Import List NArith ZArith Bool Arith String Ascii.
 Import ListNotations.
 From Cao Require Import CardAst RefSem RefScope RefSemProofs.
@@ -996,7 +1000,8 @@ Theorem C01_fragments_well_scoped :
 Proof. exact C01SimScope8.fragments_well_scoped8. Qed.
 Print Assumptions C01_fragments_well_scoped.
 
-(* ==== fragment F9: several functions, static calls with parameters, Return (PARTIAL: no end-to-end theorem yet) ====
+(* ==== fragment F9: several functions, static calls with parameters, Return (end to end: C01_compile_correct_f9 at the
+   end of this file; the text below describes the halves it is assembled from) ====
    (C01SimDefs9.in_f9.)  A module  main :: f1 :: ... :: fk  without submodules and imports, main first and without
    parameters, the function names pairwise distinct, the parameters of a function pairwise distinct.  Pure expressions e
    are those of F1 over parameters, locals and globals; a right-hand side r is  e  or  Call f [e1; ...; en]  where f is
@@ -1021,9 +1026,11 @@ Print Assumptions C01_fragments_well_scoped.
    protocol - FunctionPointer; CallFunction enters labels[h] in a frame whose offset is the position of the first argument
    (ex9_call), Return replaces the callee's part of the stack, arguments included, by the returned value and continues
    behind the call (ex9_return).
-   STILL OPEN for F9: the simulation of code_all9 on the VM by induction over run_main9 (expressions, statements, bodies,
-   functions from the last to the first) and with it C01_compile_correct_f9; recursion; calls in statement position (their
-   value stays on the stack as junk); While / Repeat inside functions.  The instance below runs all three sides. *)
+   The simulation of code_all9 on the VM (Cao.C01SimF9b: right-hand sides with calls, statements, bodies, functions from
+   the last to the first - fns_sim9 -) and the assembly C01_compile_correct_f9 are at the end of this file.
+   STILL OPEN for static calls: recursion and calls to functions declared earlier; calls in statement position (their
+   value stays on the stack as junk) or as arguments; While / Repeat inside functions.  The instance below runs all
+   three sides. *)
 From Cao Require C01SimDefs9 CompilerLabels.
 
 (* an instance: sub2(a, b) is called with (10, x = 7): the first argument is bound to the LAST parameter b, so d = a - b = -3;
@@ -1131,3 +1138,112 @@ Theorem C01_f9_compile_labels :
     C01SimDefs9.labels_ok9 (Compiler.p_labels B) 1 (C01SimDefs9.bases_all9 (Compiler.p_ids B) M).
 Proof. exact C01SimComp9.compile_f9_labels. Qed.
 Print Assumptions C01_f9_compile_labels.
+
+(* ==== fragment F9, end to end ====
+   compile_correct for the programs of C01SimDefs9.in_f9: if the reference semantics observes o, the compiled program run
+   by Vm.run with a large enough budget ends with the same outcome kind (Ok, or VarNotFound - raised in main or in any
+   callee) and, under every name that does not collide with a global name of the program, the same global.
+   Hypotheses besides in_f9 and compile = COk: depth_ok9 (C01SimDefs9: the sum over the functions of locals + deepest
+   temporaries + 2 is below the value stack size 256, and the number of functions + 1 below the call stack size - every
+   function occurs at most once in a chain of calls), fewer than 2^32 variable ids, bytecode shorter than 2^31 bytes, the
+   label keys of the program pairwise distinct (decidable; function handles are 32-bit hashes). *)
+From Cao Require C01SimF9b C01SimF9c.
+Theorem C01_compile_correct_f9 :
+  forall (F : Vm.fops) (bld : Vm.build) (M : module) (B : Compiler.compiled) (fuel : nat) (host : list str) (o : obs),
+    C01SimDefs9.in_f9 M = true ->
+    C01SimDefs9.depth_ok9 M = true ->
+    Compiler.compile M CompilerProofs.default_options = Compiler.COk B ->
+    (N.of_nat (List.length (Compiler.p_ids B)) < Bits.two32)%N ->
+    (N.of_nat (List.length (Compiler.p_bytecode B)) < 2147483648)%N ->
+    CompilerLabels.label_keys_distinct_module M 64 = true ->
+    eval_program fuel M host = PObs o ->
+    exists N0 : nat, forall budget : nat, N0 <= budget ->
+      let r := Vm.run F bld budget (C15Link.to_vm B) Vm.fresh_state in
+      C01SimDefs.vm_kind (fst r) = Some (ob_kind o) /\
+      forall n, C01SimDefs.no_collision (C01SimDefs9.gnames9 M) n ->
+        option_map C01SimDefs.vm_tree (Vm.read_var_by_name (C15Link.to_vm B) (snd r) n) = assoc n (ob_globals o).
+Proof. exact C01SimF9c.compile_correct_f9. Qed.
+Print Assumptions C01_compile_correct_f9.
+
+(* instances: f9_example above (four functions, the nested call main -> sub2 -> clamp, a Return inside an IfTrue, a function
+   that ends without Return), and a program whose innermost callee reads an undefined variable after a global was set:
+   every hypothesis of the theorem holds and both sides are evaluated *)
+Definition f9_example_err : module :=
+  prog [("main", fn [] [CSetGlobalVar (s "a") (CScalarInt 1);
+                        CSetVar (s "t") (CCall (s "outer") [CReadVar (s "a"); CScalarInt 4]);   (* p = 4, q = 1: the FIRST argument is the LAST parameter *)
+                        CSetGlobalVar (s "never") (CReadVar (s "t"))]);
+        ("outer", fn ["p"; "q"] [CTri TIfElse (CBin BLess (CReadVar (s "p")) (CReadVar (s "q")))
+                                   (CUn UReturn (CScalarInt 0))
+                                   (CSetGlobalVar (s "b") (CCall (s "inner") [CBin BAdd (CReadVar (s "p")) (CReadVar (s "q"))]));
+                                 CUn UReturn (CReadVar (s "b"))]);
+        ("inner", fn ["z"] [CSetGlobalVar (s "c") (CReadVar (s "z"));
+                            CUn UReturn (CBin BMul (CReadVar (s "z")) (CReadVar (s "undefined")))])].
+Example C01_compile_correct_f9_instance :
+  forallb (fun Mk : module * okind =>
+    match Compiler.compile (fst Mk) CompilerProofs.default_options, eval_program 500 (fst Mk) [] with
+    | Compiler.COk B, PObs o =>
+        C01SimDefs9.in_f9 (fst Mk) && C01SimDefs9.depth_ok9 (fst Mk) &&
+        (N.of_nat (List.length (Compiler.p_ids B)) <? Bits.two32)%N &&
+        (N.of_nat (List.length (Compiler.p_bytecode B)) <? 2147483648)%N &&
+        CompilerLabels.label_keys_distinct_module (fst Mk) 64 &&
+        (let r := Vm.run no_floats Vm.Debug 500 (C15Link.to_vm B) Vm.fresh_state in
+         match C01SimDefs.vm_kind (fst r), ob_kind o, snd Mk with
+         | Some KOk, KOk, KOk => true
+         | Some (KErr EVarNotFound), KErr EVarNotFound, KErr EVarNotFound => true
+         | _, _, _ => false
+         end &&
+         forallb (fun n => match option_map C01SimDefs.vm_tree (Vm.read_var_by_name (C15Link.to_vm B) (snd r) n),
+                                 assoc n (ob_globals o) with
+                           | Some (TrInt x), Some (TrInt y) => Z.eqb x y
+                           | Some TrNil, Some TrNil => true
+                           | None, None => true
+                           | _, _ => false
+                           end)
+                 [s "r"; s "q"; s "z"; s "w"; s "seen"; s "clamped"; s "n"; s "a"; s "b"; s "c"; s "never"; s "t"])
+    | _, _ => false
+    end) [(f9_example, KOk); (f9_example_err, KErr EVarNotFound)] = true /\
+  (match eval_program 500 f9_example_err [] with
+   | PObs o => (ob_kind o, ob_globals o) = (KErr EVarNotFound, [(s "a", TrInt 1); (s "c", TrInt 5)])
+   | _ => False
+   end).
+Proof. vm_compute. split; reflexivity. Qed.
+
+(* corollary (for C08 / C18): a static call leaves the caller's part of the value stack alone.  For every function
+   name / arity of the module there are the handle h the call sites use and its label pos such that the code at pos,
+   started in a fresh frame fr (offset = length below) on the argument values above ANY stack [below] and ANY frames
+   [rest], reaches - when the call has the value v (C01SimDefs9.sem9) - a Return instruction in a configuration whose
+   stack is  below ++ mid ++ [v]  (below untouched, v on top), whose frames are  fr' :: rest  (rest untouched, fr' = fr up
+   to the return address) and whose globals are those of the reference meaning.  (Return then cuts the stack at the
+   frame's offset and pushes v: C01SimVm9.ex9_return.) *)
+Theorem C01_f9_call_keeps_caller_stack :
+  forall (F : Vm.fops) (bld : Vm.build) (M : module) (B : Compiler.compiled),
+    C01SimDefs9.in_f9 M = true ->
+    Compiler.compile M CompilerProofs.default_options = Compiler.COk B ->
+    (N.of_nat (List.length (Compiler.p_ids B)) < Bits.two32)%N ->
+    (N.of_nat (List.length (Compiler.p_bytecode B)) < 2147483648)%N ->
+    CompilerLabels.label_keys_distinct_module M 64 = true ->
+    forall name n, Compiler.sm_find name (C01SimDefs9.sig_of (C01SimDefs9.other_fns M)) = Some n ->
+    exists h pos,
+      Compiler.sm_find name (C01SimDefs9.ftab_of M) = Some (h, (N.of_nat n mod Bits.two32)%N) /\
+      Vm.assoc h (Vm.p_labels (C15Link.to_vm B)) = Some pos /\
+      forall vals g gv below fr rest hp v g',
+        List.length vals = n -> Forall C01SimDefs.simple vals ->
+        C01SimF1.grel (Compiler.p_ids B) (C01SimDefs9.gnames9 M) g gv -> C01SimF1.gsimple g ->
+        N.to_nat (Vm.fr_off fr) = List.length below ->
+        List.length below + C01SimF9b.need_fs (C01SimDefs9.other_fns M) < C01SimF1.cap ->
+        List.length rest + List.length (C01SimDefs9.other_fns M) < Vm.call_stack_size ->
+        C01SimDefs9.sem9 (C01SimDefs9.other_fns M) name vals g = (Some v, g') ->
+        exists k gv' fr' hp' ipr mid,
+          C01SimVm9.steps9 F bld (C15Link.to_vm B) C01SimF1.cap k
+            (pos, (below ++ map C01SimDefs.to_vm vals)%list, gv, fr :: rest, hp)
+            (ipr, (below ++ mid ++ [C01SimDefs.to_vm v])%list, gv', fr' :: rest, hp') /\
+          Vm.fr_off fr' = Vm.fr_off fr /\ C01SimVm.code_at (C15Link.to_vm B) ipr Bytecode.IReturn /\
+          C01SimF1.grel (Compiler.p_ids B) (C01SimDefs9.gnames9 M) g' gv'.
+Proof. exact C01SimF9c.f9_call_keeps_caller_stack. Qed.
+Print Assumptions C01_f9_call_keeps_caller_stack.
+Example C01_f9_call_keeps_caller_stack_instance :
+  Compiler.sm_find (s "clamp") (C01SimDefs9.sig_of (C01SimDefs9.other_fns f9_example)) = Some 1 /\
+  C01SimDefs9.sem9 (C01SimDefs9.other_fns f9_example) (s "sub2") [RefSem.VInt 10; RefSem.VInt 7] []
+    = (Some (RefSem.VInt (-3)), [(s "seen", RefSem.VInt 0)]) /\
+  Nat.ltb (C01SimF9b.need_fs (C01SimDefs9.other_fns f9_example)) C01SimF1.cap = true.
+Proof. vm_compute. repeat split; reflexivity. Qed.
